@@ -69,10 +69,10 @@ func checkParserPrimitives(p *Prog, l *Ledger, rule string) bool {
 		"advance": {"move": `call\(parser\.\(\*Parser\)\.isAtEnd, p\) ; test\(r\)→false ; fieldstore\(p\.current, \(p\.current \+ 1\)\) ; call\(parser\.\(\*Parser\)\.previous, p\) ; return\(r\)`,
 			"stay": `call\(parser\.\(\*Parser\)\.isAtEnd, p\) ; test\(r\)→true ; call\(parser\.\(\*Parser\)\.previous, p\) ; return\(r\)`},
 		"check": {"end": `call\(parser\.\(\*Parser\)\.isAtEnd, p\) ; test\(r\)→true ; return\(false\)`,
-			"cmp": `call\(parser\.\(\*Parser\)\.isAtEnd, p\) ; test\(r\)→false ; call\(parser\.\(\*Parser\)\.peek, p\) ; return\(\(r\.Type == tokenType\)\)`},
-		"consume": {"ok": `call\(parser\.\(\*Parser\)\.check, p, tokenType\) ; test\(r\)→true ; call\(parser\.\(\*Parser\)\.advance, p\) ; return\(r, nil\)`,
-			"err": `call\(parser\.\(\*Parser\)\.check, p, tokenType\) ; test\(r\)→false ; call\(parser\.\(\*Parser\)\.peek, p\) ; call\(parser\.\(\*Parser\)\.error, p, r, message\) ; return\((obj\S*|\?), r\)`},
-		"error": {"report": `call\(utils\.GlobalErrorToken, t, message\) ; return\(Errorf\(message\)\)`},
+			"cmp": `call\(parser\.\(\*Parser\)\.isAtEnd, p\) ; test\(r\)→false ; call\(parser\.\(\*Parser\)\.peek, p\) ; return\(\(a1 == r\.Type\)\)`},
+		"consume": {"ok": `call\(parser\.\(\*Parser\)\.check, p, a1\) ; test\(r\)→true ; call\(parser\.\(\*Parser\)\.advance, p\) ; return\(r, nil\)`,
+			"err": `call\(parser\.\(\*Parser\)\.check, p, a1\) ; test\(r\)→false ; call\(parser\.\(\*Parser\)\.peek, p\) ; call\(parser\.\(\*Parser\)\.error, p, r, a2\) ; return\((obj\S*|\?), r\)`},
+		"error": {"report": `call\(utils\.GlobalErrorToken, a1, a2\) ; return\(Errorf\(a2\)\)`},
 	}
 	okAll := true
 	var names []string
@@ -90,8 +90,12 @@ func checkParserPrimitives(p *Prog, l *Ledger, rule string) bool {
 		m := NewInterpModel(p, "Parser."+n)
 		m.MainMode = true
 		var params []AV
-		for _, prm := range fn.Params {
-			params = append(params, Sym(prm.Name()))
+		for i := range fn.Params {
+			if i == 0 {
+				params = append(params, Sym("p"))
+			} else {
+				params = append(params, Sym(fmt.Sprintf("a%d", i)))
+			}
 		}
 		m.Explore(fn, params, nil)
 		ws, ok := m.G.Words(100)
@@ -117,7 +121,7 @@ func checkParserPrimitives(p *Prog, l *Ledger, rule string) bool {
 	}
 	m := NewInterpModel(p, "Parser.match")
 	m.MainMode = true
-	m.Explore(fn, []AV{Sym("p"), Sym("types")}, nil)
+	m.Explore(fn, []AV{Sym("p"), Sym("a1")}, nil)
 	mon := Monitor{Init: "loop", Step: func(s string, ev *Event) string {
 		switch ev.Op {
 		case "next":
@@ -128,7 +132,7 @@ func checkParserPrimitives(p *Prog, l *Ledger, rule string) bool {
 		case "call":
 			switch {
 			case strings.HasSuffix(ev.Args[0], ".check"):
-				if s != "elem" || len(ev.Args) < 3 || ev.Args[2] != "types[range]" {
+				if s != "elem" || len(ev.Args) < 3 || ev.Args[2] != "a1[range]" {
 					return "!match tests " + strings.Join(ev.Args[1:], ",") + " instead of the current candidate type"
 				}
 				return "checked"
